@@ -82,6 +82,12 @@ CHECKS['C19'] = ('§3 C19', 'R19a the `_refs` read-modify-write and the exists-t
                  'delete_artifact decrements per chunk entry before removing metadata',
                  'RMW detection by def-use slices, held-on-entry lock summaries, must-pass switch edges with interval implication')
 
+CHECKS['C20'] = ('§3 C20', 'R20a every allocation sized by a wire-decoded length in the frame readers and decompress sits behind a must-pass '
+                 'comparison that implies length <= the declared limit, R20b every encode/decode/read body compares with max_frame_length '
+                 'and frame_flags/method_from_flags are inverse tables, R20c lossless codecs have no saturating/clamping operation on the '
+                 'payload def-use path',
+                 'must-pass switch edges with interval implication, def-use slices, table extraction from MIR switches')
+
 NOT_APPLICABLE = {
     'C18': 'optimality and textbook agreement of path/graph algorithms are facts about computed values on arbitrary graphs; '
            'no clause is visible in the code\'s shape without freezing the algorithm (DESIGN §3 C18)',
